@@ -60,7 +60,8 @@ def check_filter(ctx, text, opts, layout):
             v = getattr(str, opts['identifier_case'])(v)
         if opts.get('truncate_strings') and tt is T.Literal.String.Single:
             n = opts['truncate_strings']
-            q, inner = ("''", v[2:-2]) if v[:2] == "''" else ("'", v[1:-1])
+            # the body is what stands between the two delimiting quotes (the implementation's special case for a value that STARTS with two quotes is KF-C08-9)
+            q, inner = "'", v[1:-1]
             if len(inner) > n:
                 v = q + inner[:n] + opts.get('truncate_char', '[...]') + q
         exp.append((ttname(tt), exact(tt, v)))
@@ -74,10 +75,25 @@ def check_filter(ctx, text, opts, layout):
         nh = lambda l: sum(1 for t, _ in l if 'Hint' in t)
         rest = lambda l: [x for x in l if 'Hint' not in x[0]]
         ctx.fail('filter changed something other than its targets (or fused/split tokens)', text, observed=got[max(0, k - 2):k + 3], required=exp[max(0, k - 2):k + 3],
-                 options=repr(allopts), output=out[:300], hints_expected=nh(exp), hints_got=nh(got), comments_expected=sum(1 for t, _ in exp if t.startswith('Comment')), comments_got=sum(1 for t, _ in got if t.startswith('Comment')), only_hints_differ=rest(exp) == rest(got))
+                 options=repr(allopts), output=out[:300], truncation=truncation_verdict(text, allopts, out), hints_expected=nh(exp), hints_got=nh(got), comments_expected=sum(1 for t, _ in exp if t.startswith('Comment')), comments_got=sum(1 for t, _ in got if t.startswith('Comment')), only_hints_differ=rest(exp) == rest(got))
         return
     if out2 != out and not layout:
         ctx.fail('applying the filter to its own output changes it', text, observed=out2[:300], required=out[:300], options=repr(allopts))
+
+
+def truncation_verdict(text, allopts, out):
+    """for a run whose only options are truncate_strings/truncate_char: does the output TEXT equal the literal-reading reference ('spec'), or what the
+    implementation's two-quote special case computes ('quirk'), or neither (None when other options are in play)"""
+    if not allopts.get('truncate_strings') or set(allopts) - {'truncate_strings', 'truncate_char'}:
+        return None
+    try:
+        if out == truncate_reference(text, allopts):
+            return 'spec'
+        if out == truncate_reference(text, allopts, quirk=True):
+            return 'quirk'
+    except Exception:
+        return None
+    return 'neither'
 
 
 def random_filter_opts(rng):
@@ -196,6 +212,68 @@ def truncate_cases(ctx):
     return out
 
 
+# --- round-4 hardening: literal bodies over an alphabet with escapes at both edges and at every cut position ---------------------------------------
+TR_ATOMS = ['a', 'b', Q + Q, '\\' + Q, '\\\\', ' ']
+
+
+def _atom_seqs(maxlen):
+    import itertools
+    for n in range(maxlen + 1):
+        for seq in itertools.product(TR_ATOMS, repeat=n):
+            yield ''.join(seq)
+
+
+def _one_token(lit, ttype):
+    t = [(tt, v) for tt, v in oracles.lex(lit)]
+    return len(t) == 1 and t[0][0] in ttype and t[0][1] == lit
+
+
+def truncate_edge_cases(ctx):
+    """every body over {a, b, '', \\', \\\\, blank} up to 3 atoms (thorough: 4), and bodies with an escape at either edge of a plain middle; for each body
+    EVERY limit from 2 to one past its length (so every cut position, incl. inside an escape and exactly at the body's end) x markers incl. quote characters;
+    the same body in the other quoting styles must never be touched"""
+    bodies = list(_atom_seqs(3 if ctx.quick() else 4))
+    edges = list(_atom_seqs(1 if ctx.quick() else 2))
+    bodies += [l + 'abcd' + r for l in edges for r in edges] + [l + 'abcdefgh' + r for l in edges[1:] for r in edges[1:]]
+    markers = [None, '', Q] if ctx.quick() else [None, '', Q, Q + Q, '\\', '…', ' ']
+    out = []
+    for body in dict.fromkeys(bodies):
+        lit = Q + body + Q
+        if not _one_token(lit, T.String.Single):
+            continue
+        others = []
+        if '\\' not in body:
+            dq = '"' + body.replace(Q + Q, '""') + '"'
+            bt = '`' + body.replace(Q + Q, '``') + '`'
+            others = [x for x, tt in ((dq, T.String.Symbol), (bt, T.Name)) if _one_token(x, tt)]
+        texts = ['select %s from t' % lit, 'select %s where x = %s' % (', '.join(others + [lit, "N" + lit]), lit)]
+        for w in range(2, len(body) + 2):
+            for ch in markers:
+                o = {'truncate_strings': w}
+                if ch is not None:
+                    o['truncate_char'] = ch
+                out.append((texts[(w + len(body)) % 2] if ctx.quick() else texts[0], o, {}))
+                if not ctx.quick():
+                    out.append((texts[1], o, {}))
+    ctx.count('sweep.truncate_edges', len(out))
+    return out
+
+
+def truncate_reference(text, opts, quirk=False):
+    """the input text with every single-quoted literal longer than the limit replaced by quote + first N characters of its body + marker + quote — the
+    property's first clause read literally (the body is what stands between the two delimiting quotes).  quirk=True: what filters/tokens.py computes for a
+    literal whose value starts with two quotes (it takes '' as the delimiter on BOTH sides: KF-C08-9)"""
+    n, ch = opts['truncate_strings'], opts.get('truncate_char', '[...]')
+    out = []
+    for tt, v in oracles.lex(text):
+        if tt is T.Literal.String.Single and len(v) >= 2:
+            q, inner = ("''", v[2:-2]) if (quirk and v[:2] == "''") else ("'", v[1:-1])
+            if len(inner) > n:
+                v = q + inner[:n] + ch + q
+        out.append(v)
+    return ''.join(out)
+
+
 DEPTHS = [1, 2, 3, 5, 8, 13, 15, 16, 17, 18, 21, 34, 64]
 
 
@@ -226,7 +304,7 @@ def run(ctx):
         cs.append((text, opts, layout))
     for c in streams.corpus('C08'):
         cs.append((c['input'], c['options'], {}))
-    sweeps = adjacency_cases(ctx) + class_cases(ctx) + truncate_cases(ctx) + depth_cases(ctx) + position_cases(ctx)
+    sweeps = truncate_edge_cases(ctx) + adjacency_cases(ctx) + class_cases(ctx) + truncate_cases(ctx) + depth_cases(ctx) + position_cases(ctx)
     for text, opts, layout in cs:
         for k in opts:
             ctx.count('opt:' + k)
@@ -386,7 +464,14 @@ def classify(f, kf):
             missing_hint = f.get('only_hints_differ') and f.get('hints_got', 0) < f.get('hints_expected', 0)
             if missing_hint and hint_after_comment_with_gap(f['input']):
                 return k['id']
-        if k['id'] == 'KF-C08-4' and 'truncate_strings' in opts:
+        if k['id'] == 'KF-C08-9' and f.get('truncation') == 'quirk':
+            # exactly the text the two-quote special case of TruncateStringFilter computes, and that is not the literal reading
+            return k['id']
+        if k['id'] == 'KF-C08-4' and f.get('truncation') == 'spec':
+            # the filter did exactly what the first clause says (first N characters + marker between the quotes); that the result no longer lexes as the
+            # expected tokens is the conflict of the two clauses: the cut fell inside an escape, or the marker itself carries a quote/backslash
+            return k['id']
+        if k['id'] == 'KF-C08-4' and 'truncate_strings' in opts and f.get('truncation') is None:
             m = re.search(r"'truncate_strings': (\d+)", opts)
             if m and cuts_doubled_quote(f['input'], int(m.group(1))):
                 return k['id']
